@@ -223,6 +223,8 @@ func main() {
 		typesHashChild(os.Args[2:])
 	case "exporter": // helper child for C14
 		exporterChild(os.Args[2:])
+	case "latereg": // helper child for C14
+		lateRegChild(os.Args[2:])
 	default:
 		fmt.Fprintln(os.Stderr, "unknown mode")
 		os.Exit(2)
